@@ -71,17 +71,19 @@ GenAttrs == << [txt |-> "", attrs |-> <<>>],
                [txt |-> "\tw v='\"'", attrs |-> <<A("w", 1, NONE, 0), A("v", 3, "'\"'", 5)>>],              \* a tab before a boolean attribute
                [txt |-> " t={a>b}", attrs |-> <<A("t", 1, "{a>b}", 3)>>],
                [txt |-> "\n  r=s\n", attrs |-> <<A("r", 3, "s", 5)>>],
-               [txt |-> " h=a=b&c=d", attrs |-> <<A("h", 1, "a=b&c=d", 3)>>] >>                                  \* "=" inside an unquoted value
+               [txt |-> " h=a=b&c=d", attrs |-> <<A("h", 1, "a=b&c=d", 3)>>],
+               [txt |-> " a-b=\"c\" d=\"\"", attrs |-> <<A("a-b", 1, "\"c\"", 5), A("d", 9, "\"\"", 11)>>],                 \* 9: a name with a dash, an empty value
+               [txt |-> " [x.y]=\"z\" :w v-on:k", attrs |-> <<A("[x.y]", 1, "\"z\"", 7), A(":w", 11, NONE, 0), A("v-on:k", 14, NONE, 0)>>] >>   \* 10: [..] : - . in names
 GenBodies == <<"", "a<b", "x</", "i<", "</p>", "<!--", "if(a<b)\"</x>\"">>
-GenOpaques == << <<"<!--", "-->">>, <<"<![CDATA[", "]]>">>, <<"<?", "?>">> >>
+GenOpaques == << <<"<!--", "-->">>, <<"<![CDATA[", "]]>">>, <<"<?", "?>">>, <<"<!DOCTYPE", ">">> >>
 GenOBodies == <<" <a> ", "", "-", "]", "a[0]]", " x --", "?", ">", "<b>", " e \"-->]]>?><b>\" ">>   \* 10: every closer inside a quoted string
 SpecialNames == {"script", "style"}
 VoidNames == {"img", "meta", "link", "br", "base", "hr", "area", "wbr", "col", "embed", "input", "param", "source", "track"}
 ShiftAttrs(attrs, by) == [k \in 1..Len(attrs) |-> [attrs[k] EXCEPT !.noff = @ + by, !.voff = IF attrs[k].v = NONE THEN 0 ELSE @ + by]]
 MkTag(n, ai, e, kind) == Seg(kind, n, "<" \o n \o GenAttrs[ai].txt \o e, ShiftAttrs(GenAttrs[ai].attrs, 1 + Len(n)))
-MkSpecial(n, ai, bi) == LET o == MkTag(n, ai, ">", "special") IN [o EXCEPT !.txt = @ \o GenBodies[bi] \o "</" \o n \o ">", !.body = Len(o.txt)]
+MkSpecial(n, ai, bi, e) == LET o == MkTag(n, ai, e, "special") IN [o EXCEPT !.txt = @ \o GenBodies[bi] \o "</" \o n \o ">", !.body = Len(o.txt)]
 \* only a processing instruction skips quoted strings: body 10 is used as it is there, and without its string elsewhere
-MkOpaque(oi, bi) == Seg("opaque", "", GenOpaques[oi][1] \o (IF bi = 10 /\ oi # 3 THEN " e " ELSE GenOBodies[bi]) \o GenOpaques[oi][2], <<>>)
+MkOpaque(oi, bi) == Seg("opaque", "", GenOpaques[oi][1] \o (IF oi = 4 THEN " html" ELSE IF bi = 10 /\ oi # 3 THEN " e " ELSE GenOBodies[bi]) \o GenOpaques[oi][2], <<>>)
 
 VARIABLES doc, xml, elems, evs, open, nseg
 vars == <<doc, xml, elems, evs, open, nseg>>
@@ -114,8 +116,9 @@ SpecialSeg(sg) == /\ Write(sg)
                   /\ UNCHANGED open
 PlainSeg(sg) == Write(sg) /\ UNCHANGED <<elems, evs, open>>
 CloseSeg == /\ open # <<>> /\ nseg < MaxSeg /\ nseg' = nseg + 1
-            /\ LET i == Last(open)
-                   t == "</" \o elems[i].name \o ">"
+            /\ \E sp \in (IF " >" \in GenEnds THEN {"", " "} ELSE {""}) :          \* "</a >" where generated tags may end in " >"
+               LET i == Last(open)
+                   t == "</" \o elems[i].name \o sp \o ">"
                IN /\ doc' = doc \o t
                   /\ elems' = [elems EXCEPT ![i].cs = Off, ![i].ce = Off + Len(t)]
                   /\ evs' = Append(evs, Ev(elems[i].name, 2, Off, Off + Len(t)))
@@ -128,8 +131,8 @@ Next == \/ CloseSeg
                 [] sg.kind = "special" -> SpecialSeg(sg)
                 [] OTHER -> PlainSeg(sg)
 GenNext == \/ \E n \in GenNames, ai \in GenAttrIdx, e \in GenEnds :
-                IF e # ">" THEN LeafSeg(MkTag(n, ai, e, "self"), 3)
-                ELSE IF n \in SpecialNames THEN \E bi \in GenBodyIdx : SpecialSeg(MkSpecial(n, ai, bi))
+                IF e \in {"/>", " />"} THEN LeafSeg(MkTag(n, ai, e, "self"), 3)
+                ELSE IF n \in SpecialNames THEN \E bi \in GenBodyIdx : SpecialSeg(MkSpecial(n, ai, bi, e))
                 ELSE IF n \in VoidNames /\ ~xml THEN LeafSeg(MkTag(n, ai, e, "void"), 1)
                 ELSE OpenSeg(MkTag(n, ai, e, "open"))
            \/ \E oi \in GenOpaqueIdx, bi \in GenOBodyIdx : PlainSeg(MkOpaque(oi, bi))
